@@ -109,3 +109,54 @@ Definition spec_participants (s : sampler) (o : started) (root_flags : Z) : list
   | SRatio _ => check (st_flags o =? root_flags) "tracer:participants_disagree"
   | _ => []
   end.
+
+(* S5/S6/S8 when the parent arrives through the contexts (StartSpanOptions::parent a SpanContext or a context::Context,
+   or the thread's current context).  Which span IS the parent is fixed by the documentation of
+   StartSpanOptions::parent (api/include/opentelemetry/trace/span_startoptions.h), not by the tracer's code:
+     - a valid SpanContext is the parent;
+     - for a Context: 1. the span it holds, if valid, is the parent - whether or not the context also carries the
+       is_root_span marker; 2. otherwise the marker means "no parent";
+     - otherwise the span active in the current context, if valid, is the parent.                                  *)
+Definition documented_parent (active : span_ctx) (a : parent_arg) : option span_ctx :=
+  let fallback := if ctx_valid active then Some active else None in
+  match a with
+  | PaSpanContext c => if ctx_valid c then Some c else fallback
+  | PaContext (Some c) marker => if ctx_valid c then Some c else if marker then None else fallback
+  | PaContext None marker => if marker then None else fallback
+  end.
+
+Definition marked_with_span (a : parent_arg) : bool :=
+  match a with PaContext (Some c) true => ctx_valid c | _ => false end.
+
+Definition spec_start_span_cx (s : sampler) (cur_span : option span_ctx) (a : parent_arg) (gen_tid : bytes)
+                              (o : started) (root_calls : Z) : list tok :=
+  check ((st_flags o =? 0) || (st_flags o =? 1)) "tracer:flags_not_w3c_level1" ++
+  match documented_parent (span_in cur_span) a with
+  | Some p =>
+      check (bytes_eqb (st_tid o) (c_tid p))
+            (if marked_with_span a then "tracer_cx:left_parent_trace_marked_context" else "tracer_cx:left_parent_trace") ++
+      match s with
+      | SParent _ =>
+          check (root_calls =? 0)
+                (if marked_with_span a then "tracer_cx:root_sampler_consulted_for_valid_parent_marked_context"
+                 else "tracer_cx:root_sampler_consulted_for_valid_parent") ++
+          check (Z.eqb (st_flags o) (if ctx_sampled p then 1 else 0))
+                (if c_remote p then "tracer_cx:parent_based_flag_differs_from_remote_parent" else "tracer_cx:parent_based_flag_differs_from_local_parent") ++
+          check (bytes_eqb (st_ts o) (c_ts p)) "tracer_cx:parent_based_trace_state_differs_from_parent"
+      | SAlwaysOn => check (st_flags o =? 1) "tracer:always_on_not_sampled"
+      | SAlwaysOff => check (st_flags o =? 0) "tracer:always_off_sampled"
+      | SRatio r =>
+          (if ratio_le0 r then check (st_flags o =? 0) "tracer:ratio_le0_sampled" else []) ++
+          (if ratio_ge1 r then check (st_flags o =? 1) "tracer:ratio_ge1_dropped" else [])
+      end
+  | None =>
+      check (bytes_eqb (st_tid o) gen_tid) "tracer_cx:root_span_not_on_generated_trace_id" ++
+      match s with
+      | SParent _ => check (root_calls =? 1) "tracer_cx:root_sampler_not_consulted_once_without_parent"
+      | SAlwaysOn => check (st_flags o =? 1) "tracer:always_on_not_sampled"
+      | SAlwaysOff => check (st_flags o =? 0) "tracer:always_off_sampled"
+      | SRatio r =>
+          (if ratio_le0 r then check (st_flags o =? 0) "tracer:ratio_le0_sampled" else []) ++
+          (if ratio_ge1 r then check (st_flags o =? 1) "tracer:ratio_ge1_dropped" else [])
+      end
+  end.
